@@ -139,6 +139,28 @@ func TestVerifC05(t *testing.T) {
 			probeAll(secs, off)
 		})
 	}
+	// many sections: every in-range one must be mapped, whatever their number
+	for _, cnt := range []int{16, 17, 20, 40} {
+		cnt := cnt
+		bcase("b-many-sections", func() {
+			g.refill(60)
+			var secs []uint64
+			secs = append(secs, 3, 0x100000, 4096, 5, 0x200000+5, 100) // below the offset
+			for i := 0; i < cnt; i++ {
+				addr := off + 0x100000 + uint64(i)*2*4096
+				if i%3 == 1 {
+					addr += 0x123
+				}
+				secs = append(secs, uint64(i%8), addr, uint64(1+(i*977)%5000))
+				if i == cnt/2 {
+					secs = append(secs, 7, 0x300000, 4096) // one more below the offset, in the middle
+				}
+			}
+			g.do("secs", secs...)
+			g.do("setup", off)
+			probeAll(secs, off)
+		})
+	}
 	bcase("b-at-offset", func() {
 		g.refill(60)
 		secs := []uint64{5, off, 4097, 3, off + 3*4096 + 1, 10, 1, off - 1, 1, 2, off - 4096, 4096}
